@@ -45,7 +45,34 @@ CORR = {
 KIND_FIELD = {'notes': 'notes', 'pitch_bends': 'pitch_bends', 'control_changes': 'control_changes'}
 
 
+# the reader's limit on the length of a file, in ticks, as note_seq sets it when the module is imported.  The writer has no limit, so
+# every sequence longer than this is written and then refused on reading; lowering the value takes pieces out of the round trip
+# (pretty_midi's own default, 1e7 ticks, is under three hours at 480 ticks per quarter and 120 qpm).
+PINNED_MAX_TICK = 1e10
+
+
+def reader_tick_limit(ctx, rule='LIMIT/reader-max-tick'):
+  mi = ctx.P.module('midi_io')
+  sts = [s_ for s_ in mi.tree.body if isinstance(s_, ast.Assign) and len(s_.targets) == 1 and norm_text(s_.targets[0]).endswith('.MAX_TICK')]
+  cons = 'midi_io raises pretty_midi\'s MAX_TICK to at least %g' % PINNED_MAX_TICK
+  if not sts:
+    ctx.ob(rule, mi, mi.tree, False, 'midi_io no longer raises pretty_midi\'s MAX_TICK: the reader then refuses files longer than pretty_midi\'s default of 1e7 ticks, which the writer produces without complaint',
+           construct=cons, definite=True)
+    return
+  for s_ in sts:
+    v_ = U.const_value(s_.value)
+    if v_ is None:
+      why_ = 'cannot classify: MAX_TICK is set to %s, which is not a constant' % norm_text(s_.value)
+      ctx.ob(rule, mi, s_, False, why_, construct=cons, unknown=why_)
+    else:
+      ok = v_ >= PINNED_MAX_TICK
+      ctx.ob(rule, mi, s_, ok, 'MAX_TICK = %g' % v_ if ok else
+             'the reader\'s length limit is lowered to %g ticks (it was %g): a sequence between the two lengths is still written, and reading it back raises MIDIConversionError - '
+             'at 480 ticks per quarter and 120 qpm %g ticks are %.1f hours' % (v_, PINNED_MAX_TICK, v_, v_ / 960.0 / 3600.0), construct=cons, definite=True)
+
+
 def run(ctx):
+  reader_tick_limit(ctx)
   pm = pmfacts.PMFacts()
   w0 = ctx.func('midi_io:note_sequence_to_pretty_midi')
   w = Canon(w0, roles.discover(w0, {
@@ -208,7 +235,11 @@ def fresh(ctx, w):
   ctx.require(len(targets) == 1, 'note_sequence_to_pretty_midi: the instrument variable of the group loop was not identified')
   inst = targets.pop()
   head = gl.body[0]
+  if not isinstance(head, ast.If):
+    # the choice may be preceded by the unpacking of the group key
+    head = next((s_ for s_ in gl.body if isinstance(s_, ast.If) and any(isinstance(c_, ast.Call) and dotted(c_.func) == 'pretty_midi.Instrument' for c_ in ast.walk(s_))), head)
   ok = False
+  located = False
   why = 'the group loop does not start by choosing the instrument object'
   if isinstance(head, ast.If):
     def creates(block):
@@ -225,12 +256,22 @@ def fresh(ctx, w):
       in_or = isinstance(head.test, ast.BoolOp) and isinstance(head.test.op, ast.Or) and any(isinstance(v, ast.Name) and v.id in init for v in head.test.values)
       ok = bool(init) and in_or
       why = 'the branch that reuses the pre-created instrument can be taken by more than one group: later groups overwrite the notes, bends and controls of earlier ones'
+      if not ok:
+        # located whatever the arrangement: taking the reuse branch changes nothing that its own condition reads (no flag set, nothing
+        # appended to a list whose length is tested) - the next group with the same instrument number takes it again
+        read = set(norm_text(n_) for n_ in ast.walk(head.test) if isinstance(n_, (ast.Name, ast.Attribute)))
+        wrote = set(norm_text(t_) for s_ in b for st_ in U.walk_stmts(ast.Module(body=[s_], type_ignores=[])) for t_, _v, _o in U.store_targets(st_)) - {inst}
+        grown = set(norm_text(c_.func.value) for s_ in b for c_ in ast.walk(s_) if isinstance(c_, ast.Call) and isinstance(c_.func, ast.Attribute) and c_.func.attr in ('append', 'add', 'extend', 'insert'))
+        if not ((wrote | grown) & read):
+          located = True
+          why = ('the branch that reuses the pre-created instrument changes nothing that its condition `%s` reads (no flag is set, nothing is appended): a second group on the same instrument '
+                 'number - another program, or the drum flag - takes it again and overwrites the notes, bends and controls of the first' % norm_text(head.test))
     elif creates(a) and not b:
       why = 'groups for which the condition is false all reuse one pre-existing instrument'
   elif any(isinstance(s, ast.Assign) and norm_text(s.targets[0]) == inst and isinstance(s.value, ast.Call) and dotted(s.value.func) == 'pretty_midi.Instrument' for s in gl.body):
     ok = True
   ctx.ob('FRESH/instrument-per-group', w, head, ok, 'every group fills its own Instrument (the placeholder is reused at most once)' if ok else why,
-         construct='one pretty_midi.Instrument per (instrument, program, is_drum) group')
+         construct='one pretty_midi.Instrument per (instrument, program, is_drum) group', definite=located)
   app = [c for c in U.calls_in(gl) if norm_text(c.func) == 'pm.instruments.append']
   ok2 = len(app) >= 1
   ctx.ob('FRESH/appended', w, app[0] if app else gl, ok2, 'new instruments are added to the file' if ok2 else 'new instruments are never added to pm.instruments')
